@@ -123,7 +123,7 @@ def run(sid, props):
     meta = json.load(open(os.path.join(d, "meta.json")))
     props = props or [meta["property"]]
     wt = worktree("run-" + sid)
-    cache = os.path.join(ROOT, ".cache-drill")
+    cache = os.environ.get("DRILL_CACHE") or os.path.join(ROOT, ".cache-drill")
     res = {}
     try:
         rc, out = sh("git apply %s" % os.path.join(d, "patch.diff"), cwd=wt)
